@@ -36,7 +36,7 @@ for p in props:
         na.append({"property_id": pid, "reason": PENDING})
 man = {
     "version": 1,
-    "setup_cmd": "cd /verif/engine && GOFLAGS=-mod=mod GOPROXY=off GOSUMDB=off GOTOOLCHAIN=local go build -o ../bin/symgo . && cd /verif && ./check selftest",
+    "setup_cmd": "cd /verif/engine && GOFLAGS=-mod=mod GOPROXY=off GOSUMDB=off GOTOOLCHAIN=local go build -o ../bin/symgo . && GOFLAGS=-mod=mod GOPROXY=off GOSUMDB=off GOTOOLCHAIN=local go build -o ../bin/genstub ./genstub && cd /verif && ./check selftest",
     "hooks": {"guard": "verif", "enable": "none needed: harness code is injected with go/packages overlays and `go test -overlay` from /verif/harness; no file of /repo is modified", "baseline_off_cmd": json.load(open("/root/.vp/BASELINE.json"))["cmd"], "source_commits": [], "add_only": True},
     "engines": [{"name": "symgo", "path": "/verif/engine", "serves_properties": sorted(CH.CHECKS), "kind_free_text": "symbolic executor for go/ssa (fork by re-execution, concrete heap shape, bit-vector scalars) driving cvc5/z3 over pipes"}],
     "checks": checks,
